@@ -1942,6 +1942,9 @@ func (lp *loopPkg) render(snap map[string]*snapItem) (string, int, int) {
 		if c := lp.byName[u]; c != nil && !lp.mine(c) {
 			continue
 		}
+		if cp.goneInCode[u] {
+			continue // defined by Gen/Code from its snapshot (the function left the source)
+		}
 		if it := snap["var "+u]; it != nil {
 			ord := 1 << 30
 			if lp.core {
